@@ -277,6 +277,12 @@ class ActivityAnalyzer(transformer.Base):
 
   def visit_arg(self, node):
     """Mark function parameter (ast.arg) in scope. Requires QnResolver has run."""
+    if self._track_annotations_only:
+      # Annotation pass: runs in the defining scope, where only the annotation
+      # expression is evaluated; the parameter itself belongs to the function.
+      if node.annotation is not None:
+        node.annotation = self._process_annotation(node.annotation)
+      return node
     node = self.generic_visit(node)
     if not anno.hasanno(node, anno.Basic.QN):
       return node
